@@ -15,28 +15,13 @@ Definition vflatten := flatten val.
 
 Definition idx_equal (a b : list val) : bool := (Z.of_nat (length a) =? Z.of_nat (length b)) && vlist_eqb a b.
 
-(* IndexCorrespondence or None when the index is absent / equals the present one *)
-Definition ic_for (hier : bool) (dsrc ddst : dtype) (src : list val) (dst : option (list val)) : res (option icorr) :=
-  match dst with
-  | None => Ok None
-  | Some d =>
-      if idx_equal src d then Ok None
-      else match M_from_correspondence val val_eqb val_leb val_sortable
-                   (if hier then objpath_2d dsrc ddst else objpath_1d dsrc ddst) src d with
-           | Some c => Ok (Some c)
-           | None => Err "KeyError"
-           end
-  end.
-
-Definition nrows_of (t : list vblk) (index : list val) : nat := length index.
-
-(* Frame.reindex -> blocks *)
+(* Frame.reindex -> blocks; the object path of intersect1d/2d from the dtypes of the two label arrays *)
 Definition M_frame_reindex (hi hc : bool) (di dc ddi ddc : dtype) (index columns : list val) (t : list vblk)
   (new_index new_columns : option (list val)) : res (list vblk) :=
-  match ic_for hi di ddi index new_index, ic_for hc dc ddc columns new_columns with
-  | Ok ic, Ok cc => vresize t (length index) ic cc
-  | Err e, _ | _, Err e => Err e
-  end.
+  M_frame_reindex_g val val val_eqb val_leb val_sortable VNaN cast_nan resolve_nan (DFlt 8)
+    (if hi then objpath_2d di ddi else objpath_1d di ddi)
+    (if hc then objpath_2d dc ddc else objpath_1d dc ddc)
+    index columns t new_index new_columns.
 
 (* ---- TypeBlocks._ufunc_binary_operator ---- *)
 Definition width (b : vblk) : nat := length (k_cols val b).
